@@ -120,7 +120,7 @@ def _flaggable(v):
     return False
 
 
-def path_avoiding_guard(cfg, targets, guard, mode=N, sources=None):
+def path_avoiding_guard(cfg, targets, guard, mode=N, sources=None, dead_ok=False):
     """None when every path from entry/sources to a target crosses a guard edge; otherwise a
     witness path that avoids all guard edges.
 
@@ -132,6 +132,8 @@ def path_avoiding_guard(cfg, targets, guard, mode=N, sources=None):
     tg = set(n.id if isinstance(n, Node) else n for n in targets)
     src = [n.id if isinstance(n, Node) else n for n in (sources or [cfg.entry])]
     if tg and not (cfg.reachable([cfg.entry], X) & tg):
+        if dead_ok:
+            return None     # pure safety rules (diagnostics): what cannot run cannot do harm
         # "X only behind guard G" must not be discharged by X having become unreachable altogether
         raise AnalysisError("the construct a guard rule is about is unreachable in %s (line %s): dead code cannot discharge the obligation"
                             % (getattr(cfg.fn, "name", "?"), sorted(cfg.nodes[t].lineno or 0 for t in tg)[:3]))
